@@ -73,7 +73,7 @@ CHECKS = {
         design="DESIGN.md §4 C13",
     ),
     "C08": dict(
-        rules="R08.1-R08.2",
+        rules="R08.1-R08.3",
         what="every SubtypeContext flag, proper_subtype and state.strict_optional is a component of the subtype memo key; every context/global attribute read by the subtype visitor is keyed; lookups and records address the same entry with the same key and operands and the right polarity; hashed fields of every Type class are compared by __eq__",
         quant="pairs and triples of types",
         technique="who-may-read rule over subtypes.py against the key tuple; sibling cross-check of lookup/record and of __hash__/__eq__",
